@@ -6,12 +6,32 @@ use super::ast::*;
 use super::lexer::{Lexer, Token, TokenKind};
 use grafeo_common::utils::error::{Error, Result};
 
+/// Deepest nesting of selection sets, input values and list types the parser follows.
+///
+/// The parser is recursive descent and every later stage (translator, binder, optimizer,
+/// planner, `Drop`) walks the tree recursively as well, so unbounded nesting in the query
+/// text overflows the stack, which aborts the process instead of returning an error. 128
+/// levels stay well inside the 2 MiB stack of a spawned thread in a debug build.
+const MAX_NESTING_DEPTH: usize = 128;
+
+/// Most arguments, input object fields, inline fragments and fields with a selection set
+/// of their own in one document.
+///
+/// Each of them becomes (at least) one operator or one operand of an AND chain stacked on
+/// top of the previous ones in the query plan, which the later stages again walk
+/// recursively. Plain fields and the items of list values are not counted.
+const MAX_DOCUMENT_PARTS: usize = 2048;
+
 /// GraphQL parser.
 pub struct Parser<'a> {
     tokens: Vec<Token>,
     position: usize,
     #[allow(dead_code)]
     source: &'a str,
+    /// Number of nested productions currently being parsed.
+    depth: usize,
+    /// Number of arguments, object fields and nested selections parsed so far.
+    parts: usize,
 }
 
 impl<'a> Parser<'a> {
@@ -23,7 +43,32 @@ impl<'a> Parser<'a> {
             tokens,
             position: 0,
             source,
+            depth: 0,
+            parts: 0,
         }
+    }
+
+    /// Enters a production that can contain itself; pair with `leave`.
+    fn enter(&mut self) -> Result<()> {
+        if self.depth >= MAX_NESTING_DEPTH {
+            return Err(self.error("Query nested too deeply"));
+        }
+        self.depth += 1;
+        Ok(())
+    }
+
+    /// Leaves a production entered with `enter`.
+    fn leave(&mut self) {
+        self.depth -= 1;
+    }
+
+    /// Counts one more argument, input object field or nested selection.
+    fn count_part(&mut self) -> Result<()> {
+        if self.parts >= MAX_DOCUMENT_PARTS {
+            return Err(self.error("Query has too many arguments and nested selections"));
+        }
+        self.parts += 1;
+        Ok(())
     }
 
     /// Parses the document.
@@ -182,7 +227,10 @@ impl<'a> Parser<'a> {
     fn parse_type(&mut self) -> Result<Type> {
         let base_type = if self.check(TokenKind::LBracket) {
             self.advance();
-            let inner = self.parse_type()?;
+            self.enter()?;
+            let inner = self.parse_type();
+            self.leave();
+            let inner = inner?;
             self.expect(TokenKind::RBracket)?;
             Type::List(Box::new(inner))
         } else {
@@ -199,6 +247,13 @@ impl<'a> Parser<'a> {
     }
 
     fn parse_selection_set(&mut self) -> Result<SelectionSet> {
+        self.enter()?;
+        let selection_set = self.parse_selection_set_body();
+        self.leave();
+        selection_set
+    }
+
+    fn parse_selection_set_body(&mut self) -> Result<SelectionSet> {
         self.expect(TokenKind::LBrace)?;
 
         let mut selections = Vec::new();
@@ -229,6 +284,7 @@ impl<'a> Parser<'a> {
                 };
 
                 let directives = self.parse_directives()?;
+                self.count_part()?;
                 let selection_set = self.parse_selection_set()?;
 
                 Ok(Selection::InlineFragment(InlineFragment {
@@ -276,6 +332,7 @@ impl<'a> Parser<'a> {
 
         // Selection set
         let selection_set = if self.check(TokenKind::LBrace) {
+            self.count_part()?;
             Some(self.parse_selection_set()?)
         } else {
             None
@@ -304,6 +361,7 @@ impl<'a> Parser<'a> {
     }
 
     fn parse_argument(&mut self) -> Result<Argument> {
+        self.count_part()?;
         let name = self.parse_name()?;
         self.expect(TokenKind::Colon)?;
         let value = self.parse_input_value()?;
@@ -333,6 +391,13 @@ impl<'a> Parser<'a> {
     }
 
     fn parse_input_value(&mut self) -> Result<InputValue> {
+        self.enter()?;
+        let value = self.parse_input_value_body();
+        self.leave();
+        value
+    }
+
+    fn parse_input_value_body(&mut self) -> Result<InputValue> {
         let token = self.advance_token()?;
         match token.kind {
             TokenKind::Dollar => {
@@ -357,6 +422,7 @@ impl<'a> Parser<'a> {
             TokenKind::LBrace => {
                 let mut fields = Vec::new();
                 while !self.check(TokenKind::RBrace) && !self.is_eof() {
+                    self.count_part()?;
                     let name = self.parse_name()?;
                     self.expect(TokenKind::Colon)?;
                     let value = self.parse_input_value()?;
@@ -537,5 +603,85 @@ mod tests {
             assert_eq!(field.directives.len(), 1);
             assert_eq!(field.directives[0].name, "include");
         }
+    }
+
+    fn limit_error(query: &str) -> String {
+        match Parser::new(query).parse() {
+            Ok(_) => panic!("expected a nesting error"),
+            Err(e) => e.to_string().lines().next().unwrap_or_default().to_string(),
+        }
+    }
+
+    #[test]
+    fn test_deeply_nested_query_is_an_error() {
+        // Moderate nesting still parses
+        let ok = format!(
+            "{{ person {}{{ name }}{} }}",
+            "{ knows ".repeat(50),
+            " }".repeat(50)
+        );
+        assert!(Parser::new(&ok).parse().is_ok());
+
+        // Every nesting production reports an error instead of overflowing the stack
+        let n = 100_000;
+        let open = |s: &str| s.repeat(n);
+        for query in [
+            format!("{{ person {}{{ name }}{} }}", open("{ knows "), open(" }")),
+            format!("{{ person {{ {}name{} }} }}", open("... { "), open(" }")),
+            format!(
+                "{{ person {{ {}name{} }} }}",
+                open("... on Person { "),
+                open(" }")
+            ),
+            format!("{{ person(x: {}{}) {{ name }} }}", open("["), open("]")),
+            format!("{{ person(x: {}1{}) {{ name }} }}", open("{a: "), open("}")),
+            format!(
+                "query Q($x: {}Int{}) {{ person {{ name }} }}",
+                open("["),
+                open("]")
+            ),
+            format!(
+                "query Q($x: Int = {}{}) {{ person {{ name }} }}",
+                open("["),
+                open("]")
+            ),
+            format!(
+                "{{ person @skip(if: {}{}) {{ name }} }}",
+                open("["),
+                open("]")
+            ),
+        ] {
+            let message = limit_error(&query);
+            assert!(message.contains("nested too deeply"), "{message}");
+        }
+    }
+
+    #[test]
+    fn test_too_many_arguments_is_an_error() {
+        let args = |n: usize| {
+            (0..n)
+                .map(|i| format!("p{i}: 1"))
+                .collect::<Vec<_>>()
+                .join(", ")
+        };
+        let ok = format!("{{ person({}) {{ name }} }}", args(100));
+        assert!(Parser::new(&ok).parse().is_ok());
+
+        for query in [
+            format!("{{ person({}) {{ name }} }}", args(100_000)),
+            format!("{{ person(where: {{{}}}) {{ name }} }}", args(100_000)),
+            format!("{{ person {{ {} }} }}", "knows { name } ".repeat(100_000)),
+        ] {
+            let message = limit_error(&query);
+            assert!(message.contains("too many arguments"), "{message}");
+        }
+
+        // Plain fields and list items stay unlimited
+        let wide = format!(
+            "{{ person(ids: [{}]) {{ {} }} }}",
+            vec!["1"; 10_000].join(", "),
+            "name ".repeat(10_000)
+        );
+        assert!(Parser::new(&wide).parse().is_ok());
     }
 }
